@@ -1636,11 +1636,15 @@ func main() {
 			}
 			sort.Strings(rnames)
 			mem := "\n/-- the memory instructions of every reader primitive of codec/binary_codec.go, in source order: " + strings.Join(rnames, ", ") + " -/\ndef readerProgs : List FinProto.Alias.Prog := [\n"
-			for i, k := range rnames {
-				if i > 0 {
-					mem += ",\n"
+			first := true
+			for _, k := range rnames {
+				for _, pr := range fx.MemProgs[k] {
+					if !first {
+						mem += ",\n"
+					}
+					first = false
+					mem += "  [" + strings.Join(pr, ", ") + "]"
 				}
-				mem += "  [" + strings.Join(fx.MemProgs[k], ", ") + "]"
 			}
 			mem += "]\n"
 			defs, extra := primDefs(*root)
